@@ -213,7 +213,7 @@ theorem C11_world_nonmember_refused (w0 : World) (h0 : PInv w0) (steps : List WS
       obtain ⟨c', hc', _⟩ := hmemb g i (by rw [mem_of_group? hgr]; exact hm)
       rw [hc] at hc'; cases hc'
     | some c =>
-      rw [conn_group, hc] at hg
+      rw [conn_group_bind, hc] at hg
       exact hi.holds_none i c hc hg
   refine ⟨?_, hp⟩
   exact C11_nonmember_refused _ _ m hg (by rw [conn_perms_eq]; exact hp.1)
@@ -349,7 +349,7 @@ theorem C11_world_join_grants (w : World) (hi : PInv w) (i : Nat) (m : Msg) (g :
     cases hc : w.clients[i]? with
     | none => unfold World.permsOf World.client?; rw [hc]
     | some c =>
-      rw [conn_group, hc] at hg
+      rw [conn_group_bind, hc] at hg
       exact (hi.holds_none i c hc hg).1
   have hnil : ∀ ext, (match (w.pk.withHeap (w.heap ++ ext)).cl i with
       | some x => (w.pk.withHeap (w.heap ++ ext)).heap.get x.2 | none => []) = [] := by
@@ -357,7 +357,7 @@ theorem C11_world_join_grants (w : World) (hi : PInv w) (i : Nat) (m : Msg) (g :
     cases hc : w.clients[i]? with
     | none => rw [PK.withHeap_cl, pk_cl_none hc]
     | some c =>
-      rw [conn_group, hc] at hg
+      rw [conn_group_bind, hc] at hg
       have hp : c.perms = nilSlice := ((PInv_iff w).mp hi).2.2.2.1 i c hc hg
       rw [PK.withHeap_cl, pk_cl_some hc, hp]
       simp [Heap.get, nilSlice]
